@@ -169,6 +169,15 @@ package models
 
 // (*URL).String: canonical text of a URL (cached); treated as a function of the URL object
 // here, see C09 for determinism of the canonicalisation itself.
+// C09/C08 note: this contract stays `opaque` (an assumption). It embodies the sync.Once caching
+// ("a second call on the same object returns the same value") and hides that the first call
+// rewrites parsed.RawQuery / parsed.Host. It cannot be replaced by a verified contract with this
+// engine: (*sync.Once).Do(f) is a dependency whose effect is "run the closure argument unless
+// done", and a lib contract has no way to invoke (or take the frame of) a function-valued
+// parameter; a sound lib contract would need `modifies *`, which would destroy the frame the
+// C11/C08 callers rely on. What the closure stores is verified separately ((*URL).String$1).
+// The canonical text is NOT a function of the URL text (see URLToString/post:order): two URL
+// objects with the same text may have different urlKey.
 //@ pure urlKey(u *URL) string
 //@ func (*URL).String
 //@   opaque
@@ -212,3 +221,77 @@ package models
 //@   requires dwrDef()
 //@   modifies nothing
 //@   ensures [def] result == dwr(i) // C06: embedded resources are fetched at most three levels below the page
+
+// ---------------------------------------------------------------------------------------
+// C09: canonical text of a URL (URLToString / encodeQuery)
+
+// Abstract model of url.Values for "parameters keep their order": paramKey(v, i) is the i-th
+// distinct parameter name of the query the map was parsed from (any fixed enumeration of the
+// keys); the values of one name are the Go slice v[k], which keeps their order.
+//@ pure paramKey(v url.Values, i int) string
+
+// encodeQuery. Ghost counters (package-level ghost variables, havocked explicitly at the loop
+// heads; function-local ghosts are not havocked by loops in this engine): qKeys counts the
+// names emitted so far, qPairs the name=value pairs. The k-th name emitted must be the k-th
+// parameter name; within one name every value is emitted once, in the order of the slice.
+//@ ghost var qKeys int
+//@ ghost var qPairs int
+//@ func encodeQuery
+//@   property C09
+//@   replay c09_encodeQuery:order
+//@   modifies qKeys, qPairs
+//@   let vals = v
+//@   let k0 = qKeys
+//@   after QueryEscape(k)#1: qKeys = qKeys + 1
+//@   after WriteByte(buf)#2: qPairs = qPairs + 1
+//@   loop rangemap modifies qKeys, qPairs
+//@   loop rangemap invariant [count] qKeys >= k0
+//@   loop rangemap let p0 = qPairs
+//@   loop range modifies qPairs
+//@   loop range invariant [each-once] -1 <= rangeindex && qPairs == p0 + rangeindex + 1
+//@   assert QueryEscape(k)#1: [order] k == paramKey(vals, qKeys - k0) // C09: well-formed query parameters keep their order
+//@   assert WriteByte(buf)#2: [value-order] qPairs == p0 + rangeindex // C09: and multiplicity (the j-th value of a name is its j-th emission)
+//@   ensures [empty] len(vals) == 0 ==> result == ""
+
+// URLToString: the query is re-encoded except for the three signed reddit hosts, the host is
+// converted to ASCII (idna; lib spec c09_idna.spec), the result is net/url's serialisation of
+// the updated URL.
+// reenc(q): the order-preserving re-encoding of the raw query q (every name=value pair of q, in
+// the order and multiplicity of q, each part query-escaped): a function of the query text.
+//@ pure reenc(q string) string
+//@ pred isSignedHost(h string) = h == "external-preview.redd.it" || h == "styles.redditmedia.com" || h == "preview.redd.it"
+//@ func URLToString
+//@   property C09
+//@   requires [non-nil] URL != nil
+//@   modifies URL.RawQuery, URL.Host, qKeys, qPairs
+//@   replay c09_encodeQuery:order
+//@   ensures [signed-untouched] isSignedHost(old(URL.Host)) ==> URL.RawQuery == old(URL.RawQuery)
+//@   ensures [order] !isSignedHost(old(URL.Host)) ==> URL.RawQuery == reenc(old(URL.RawQuery)) // C09: the same input always gives the same canonical string ... well-formed query parameters keep their order and multiplicity
+//@   ensures [host-ascii] idna.toASCIIOk(old(URL.Host)) ==> URL.Host == idna.toASCII(old(URL.Host))
+//@   ensures [host-noport] !strings.Contains(idna.toASCII(old(URL.Host)), ":") ==> URL.Host == idna.toASCII(old(URL.Host))
+//@   ensures [text] result == url.urlText(URL.Scheme, URL.Opaque, URL.User, URL.Host, URL.Path, URL.RawPath, URL.OmitHost, URL.ForceQuery, URL.RawQuery, URL.Fragment, URL.RawFragment) // C09: the canonical string is a function of the (updated) URL fields
+
+// The function run (at most once, sync.Once) by (*URL).String: it stores URLToString of the
+// parsed URL in the cache. (*URL).String itself stays opaque, see the note at its contract.
+//@ func (*URL).String$1
+//@   property C09
+//@   requires [parsed] (*u) != nil && (*u).parsed != nil
+//@   let h0 = (*u).parsed.Host
+//@   let q0 = (*u).parsed.RawQuery
+//@   ensures [canonical-host] idna.toASCIIOk(h0) ==> (*u).parsed.Host == idna.toASCII(h0)
+//@   ensures [signed-untouched] isSignedHost(h0) ==> (*u).parsed.RawQuery == q0
+//@   ensures [cache] (*u).stringCache == url.urlText((*u).parsed.Scheme, (*u).parsed.Opaque, (*u).parsed.User, (*u).parsed.Host, (*u).parsed.Path, (*u).parsed.RawPath, (*u).parsed.OmitHost, (*u).parsed.ForceQuery, (*u).parsed.RawQuery, (*u).parsed.Fragment, (*u).parsed.RawFragment) // C09: the canonical string is URLToString of the parsed URL
+
+// ---------------------------------------------------------------------------------------
+// C08: helpers used by the seencheck functions (recursive tree walks, assumed here).
+// GetNodesAtLevel collects non-nil nodes into a new slice and writes nothing; on a non-seed it
+// returns ErrNotASeed.
+//@ func (*Item).GetMaxDepth
+//@   opaque
+//@   modifies nothing
+//@ func (*Item).GetNodesAtLevel
+//@   opaque
+//@   modifies nothing
+//@   ensures (result1 == nil) == (i.parent == nil)
+//@   ensures result1 == nil ==> freshslice(result0) && forall(j, 0, len(result0), result0[j] != nil)
+//@   ensures targetLevel == 0 && result1 == nil ==> len(result0) == 1 && result0[0] == i
